@@ -139,20 +139,24 @@ GroupViol(mem, entries) == {VG(e[3], e[1]) : e \in {x \in entries : x[1] \in DOM
 RECURSIVE PutAll(_, _)
 PutAll(f, es) == IF es = {} THEN f ELSE LET e == CHOOSE x \in es : TRUE IN PutAll(IF e[1] \in DOMAIN f THEN f ELSE Put(f, e[1], e[2]), es \ {e})
 
-\* GenSchema<S>(ctx, attribute) is called once per custom field with the description and flags the field would
+\* GenSchema<S>(ctx, attribute) is called once per custom field (at any nesting level) with the description and flags the field would
 \* otherwise get (and no type of the generator's own), and its result is the schema entry
+RECURSIVE C17Schema(_, _, _)
 C17Schema(Mm, hooks, real) ==
   UNION {
     LET F == Mm.fields[i]
         calls == CallsOf(hooks, "GenSchema", F.suffix)
         plain == [AttrModel([F EXCEPT !.kind = "prim"]) EXCEPT !.type = TNone]
-    IN IF Cardinality(calls) # 1 THEN {V("C17.schema_call", F, "not called exactly once")}
+    IN IF F.kind \in {"obj", "objlist", "objmap"} THEN
+          (IF F.attr \in DOMAIN real /\ real[F.attr].mode # "none" THEN C17Schema(SubOf(F), hooks, real[F.attr].sub) ELSE {})
+       ELSE IF F.kind # "custom" THEN {}
+       ELSE IF Cardinality(calls) # 1 THEN {V("C17.schema_call", F, "not called exactly once")}
        ELSE LET h == hooks[CHOOSE k \in calls : TRUE]
             IN (IF RealAttr(h.attr) # [x \in DOMAIN RealAttr(h.attr) |-> plain[x]] \/ ~h.attr.descclean
                 THEN {V("C17.schema_call", F, "attribute passed to the hook")} ELSE {})
                \cup (IF F.attr \notin DOMAIN real \/ real[F.attr].descw # <<"hook:" \o F.suffix>> \o plain.descw
                      THEN {V("C17.schema_call", F, "hook result is not the schema entry")} ELSE {})
-    : i \in CustomIdx(Mm) }
+    : i \in DOMAIN Mm.fields }
 
 SchemaChecks(meta) == {meta.gchecks[i].c : i \in {j \in DOMAIN meta.gchecks : meta.gchecks[j].k = "schema"}}
 
